@@ -69,7 +69,7 @@ def run(ctx):
     # ---- 3. crash-point enumeration + race replay on the real code
     shapes = SHAPES_QUICK if quick else SHAPES_QUICK + SHAPES_MORE
     plan = {"shapes": [{"name": n, "prep": p} for n, p in shapes], "ops": OPS, "followups": OPS,
-            "timeout_ms": 20, "bound_ms": 20000, "stride": 6 if quick else 1, "races": races}
+            "timeout_ms": 20, "bound_ms": 20000, "stride": 6 if quick else 2, "races": races}
     bf = os.path.join(ctx.scratch, "c15-plan.json")
     tr = os.path.join(ctx.scratch, "c15.ndjson")
     ix = os.path.join(ctx.scratch, "c15-index.json")
@@ -163,6 +163,11 @@ DIRECTED = [
      [S(1, "I", "A", A1)] + steps(1, 4) + [S(1, "D", "A")] + steps(1, 4) + [S(2, "I", "A", A1)] + steps(2, 3) + steps(1, 2) + steps(2, 1)),
     ("cas-race/two-updates", [S(1, "I", "A", A12)] + steps(1, 4) + [S(1, "U", "A", A1), S(2, "U", "A", A12)] + steps(1, 2) + steps(2, 2) + steps(1, 1) + steps(2, 1)),
     ("cas-race/insert-B-vs-grow-A", [S(1, "I", "A", A1)] + steps(1, 4) + [S(1, "U", "A", A12), S(2, "I", "B", B2)] + steps(1, 2) + steps(2, 2) + steps(2, 2) + steps(1, 2)),
+    # an update's finalize step overtaken by the next update of the same database, which then dies: the previous-version
+    # marker of the second update must survive the first one's finalize (it still protects c2 for A)
+    ("stale-finalize/update-overtaken",
+     [S(1, "I", "A", A12)] + steps(1, 4) + [S(1, "U", "A", A12)] + steps(1, 4) + [S(2, "U", "A", A1)] + steps(2, 3) + steps(1, 2)
+     + [{"a": "Crash", "n": 2}, S(1, "I", "B", B2)] + steps(1, 4)),
     ("slow-writer/update-waited-for", [S(1, "I", "A", A1)] + steps(1, 4) + [S(1, "U", "A", A12)] + steps(1, 3) + [S(2, "L")] + steps(2, 2) + steps(1, 1) + steps(2, 3) + steps(1, 2)),
 ]
 
@@ -218,7 +223,7 @@ def race_behaviours(ctx):
     allb = [uniq[k] for k in sorted(uniq)]
     ctx.cov["race_behaviours_exhaustive"] = len(allb)
     if quick:
-        allb = rnd.sample(allb, min(len(allb), 100))
+        allb = rnd.sample(allb, min(len(allb), 80))
     for b in allb:
         add("beh", b)
     # seeded simulations of the larger instance (two databases, loads, one crash)
@@ -226,7 +231,7 @@ def race_behaviours(ctx):
         return res
     # seeded simulations of the larger instance (two databases, loads, one crash): TLC -simulate is slow on this model
     # (it builds every successor to pick one), so the quick tier only takes a few
-    sims = behaviours(ctx, SPEC, "MC_ConfigRegistry", "Sim_ConfigRegistry.cfg", num=30 if quick else 1500, depth=70, timeout=2400)
+    sims = behaviours(ctx, SPEC, "MC_ConfigRegistry", "Sim_ConfigRegistry.cfg", num=20 if quick else 300, depth=70, timeout=2400)
     for b in sims:
         sc = to_schedule(b)
         if interesting(sc):
